@@ -1,5 +1,6 @@
 #!/bin/sh
 # MANIFEST.hooks.baseline_off_cmd: rebuild the repository's test suite (no verification guard defined) and run it.
-set -e
-cmake --build /repo/_build -j"$(nproc)" > /tmp/verif_baseline_build.log 2>&1 || { tail -50 /tmp/verif_baseline_build.log; exit 1; }
+cmake --build /repo/_build -j"$(nproc)" > /tmp/verif_baseline_build.log 2>&1 \
+  || cmake --build /repo/_build -j4 > /tmp/verif_baseline_build.log 2>&1 \
+  || { tail -50 /tmp/verif_baseline_build.log; exit 1; }
 ctest --test-dir /repo/_build/test -j8 --timeout 900 --no-tests=error --output-on-failure
